@@ -259,15 +259,26 @@ func ruleWatcherReportsCtxErr(c *chk.Ctx, owner string) {
 		if s.owner != owner {
 			continue
 		}
+		// the watcher: the function of the slot write, or the private caller it was split from,
+		// whose first action is to wait for a context to end
 		f := s.fn
 		var ctxParam ssa.Value
-		if len(f.Blocks) > 0 {
-			for _, ins := range f.Blocks[0].Instrs {
-				if u, ok := ins.(*ssa.UnOp); ok && u.Op == token.ARROW {
-					if cx, ok := doneRecvCtx(u.X); ok {
-						ctxParam = ir.NormCell(cx)
+		for up := 0; up < 4 && f != nil && ctxParam == nil; up++ {
+			if len(f.Blocks) > 0 {
+				for _, ins := range f.Blocks[0].Instrs {
+					if u, ok := ins.(*ssa.UnOp); ok && u.Op == token.ARROW {
+						if cx, ok := doneRecvCtx(u.X); ok {
+							ctxParam = c.P.Canon(cx)
+						}
 					}
 				}
+			}
+			if ctxParam == nil {
+				cs, ok := c.P.SoleCaller(f)
+				if !ok {
+					break
+				}
+				f = cs.Caller
 			}
 		}
 		if ctxParam == nil {
@@ -278,7 +289,7 @@ func ruleWatcherReportsCtxErr(c *chk.Ctx, owner string) {
 		found := false
 		isCtxErr := func(v ssa.Value) bool {
 			inv, isCall := ir.NormCell(v).(*ssa.Call)
-			return isCall && inv.Call.IsInvoke() && inv.Call.Method.Name() == "Err" && ir.NormCell(inv.Call.Value) == ctxParam
+			return isCall && inv.Call.IsInvoke() && inv.Call.Method.Name() == "Err" && c.P.Canon(inv.Call.Value) == ctxParam
 		}
 		c.P.ExtInstrs(f, func(ins ssa.Instruction) {
 			call, ok := ins.(*ssa.Call)
@@ -390,8 +401,10 @@ func ruleEveryPeerErrorFiltered(c *chk.Ctx) {
 		}
 		var wait *ssa.Call
 		ir.Instrs(f, func(ins ssa.Instruction) {
-			if call, ok := ins.(*ssa.Call); ok && call.Call.StaticCallee() == settle {
-				wait = call
+			if call, ok := ins.(*ssa.Call); ok {
+				if g := call.Call.StaticCallee(); g == settle || (g != nil && c.P.InRepo[g] && !ir.Exported(g) && reachesCallee(c, g, settle, 1)) {
+					wait = call
+				}
 			}
 		})
 		if wait == nil {
@@ -406,8 +419,7 @@ func ruleEveryPeerErrorFiltered(c *chk.Ctx) {
 			if ir.IsNilConst(ev) {
 				continue
 			}
-			call, ok := ev.(*ssa.Call)
-			if !ok || call.Call.StaticCallee() == nil || call.Call.StaticCallee().Name() != "filterError" {
+			if through, _ := errorsThroughFilter(c, ev); !through {
 				bad = c.P.Pos(r.Pos())
 			}
 		}
@@ -602,6 +614,21 @@ func ruleStopResultInvoked(c *chk.Ctx) {
 			if ci, ok := r.(ssa.CallInstruction); ok && ci.Common().Value == ssa.Value(call) {
 				invoked++
 			}
+		}
+		if stop.Signature.Results().Len() == 1 && stop.Signature.Results().At(0).Type().String() == "bool" {
+			// the stop function reports whether this call stopped the client: the caller runs the
+			// hook once, on the true outcome
+			ir.Instrs(s.Caller, func(i2 ssa.Instruction) {
+				ci, ok := i2.(ssa.CallInstruction)
+				if !ok || !chk.LoadsField(ci.Common().Value, c.M.CShook) {
+					return
+				}
+				for _, cd := range ir.CondsAt(i2.Block()) {
+					if cd.V == ssa.Value(call) && cd.Truth {
+						invoked++
+					}
+				}
+			})
 		}
 		c.Check(invoked == 1, "HOOK.stop", s.Caller, "stop result invoked", call.Pos(), "the function returned by the stop function is invoked exactly once by this caller", fmt.Sprintf("the function returned by the stop function is invoked %d times by this caller: OnStop would be lost or repeated", invoked))
 	}
